@@ -45,9 +45,10 @@ def address_taken(prog, reach):
 def const_table_ranges(prog, src):
     """element range of every module-level const whose initialiser is a literal byte string / integer array
     (source dump): `TABLE[i]` then reads a value in [min, max] whatever the index"""
-    from .src import lit_int
+    from .src import lit_int, walk
     out = {}
     lens = {}
+    cvals = {}
     for c in prog.consts.values():
         path = c["path"]
         mod, _, name = path.rpartition("::")
@@ -55,6 +56,19 @@ def const_table_ranges(prog, src):
             continue
         fstem = "src/" + mod.replace("::", "/")
         hit = src.const(name, file=fstem + ".rs") or src.const(name, file=fstem + "/mod.rs")
+        if hit is None:
+            # a const item written inside a function body: found by name in the file its span names
+            sfile = (c.get("span") or "").split(":")[0]
+            found = []
+
+            def see(n, parents):
+                if n.get("k") == "item" and isinstance(n.get("item"), dict) and n["item"].get("k") == "const" and n["item"].get("name") == name:
+                    found.append(n["item"])
+            for (f, s_, tr, it, t) in src.fns:
+                if f == sfile and not t and it.get("body"):
+                    walk(it["body"], see)
+            if len(found) == 1:
+                hit = (sfile, found[0])
         if hit is None:
             continue
         e = hit[1]["expr"]
@@ -71,7 +85,10 @@ def const_table_ranges(prog, src):
             vals = [lit_int(e["e"])]
         if vals and all(v is not None for v in vals) and re.search(r"\[(u8|u16|u32|u64|usize|i8|i16|i32|i64|isize)", c["ty"]):
             out[path] = (min(vals), max(vals))
+            if e.get("k") != "repeat" and len(vals) <= 64:
+                cvals[path] = list(vals)
     prog.const_lens = lens
+    prog.const_vals = cvals
     return out
 
 
